@@ -27,7 +27,7 @@ FLOATS = ('float32', 'float64')
 
 HEADER = """From Coq Require Import List Bool Arith String.
 Import ListNotations.
-From SG Require Import Base.Cmp IR.Dtype Gen.GenDtype Proofs.DtypeProofs.
+From SG Require Import Base.Cmp IR.Dtype Gen.GenDtype.
 Open Scope string_scope.
 """
 
@@ -378,7 +378,7 @@ def run(ctx):
         kcheck(ctx, info, obs_list)
     elif info is not None:
         # the generated file may still compile although a theorem fails: try the correspondences anyway
-        okg, _ = common.coq_make(["IR/Dtype.vo", "Gen/GenDtype.vo", "Proofs/DtypeProofs.vo"], timeout=900)
+        okg, _ = common.coq_make(["Base/Cmp.vo", "IR/Dtype.vo", "Gen/GenDtype.vo"], timeout=900)
         if okg:
             selfcheck(ctx, info, recdata)
             kcheck(ctx, info, obs_list)
